@@ -193,6 +193,10 @@ func c01CheckDescriptor(c *core.Ctx) {
 		Edge: func(b *ssa.BasicBlock, idx int, t facts.Tokens) bool {
 			for _, cond := range facts.EdgeConds(b, idx) {
 				if x, isNil, ok := facts.NilCheck(cond); ok && argIsParam(x, cd, 1) {
+					// the parameter is never reassigned: a repeated test has the same outcome
+					if (isNil && t["dataNonNil"]) || (!isNil && t["dataNil"]) {
+						return false
+					}
 					if isNil {
 						t["dataNil"] = true
 					} else {
